@@ -23,7 +23,7 @@ def compare(case, m, i):
 
 
 def explore(ctx):
-    reps = 20 if ctx.quick else 400
+    reps = 80 if ctx.quick else 400
     cases = []
     dist = {}
     k = 0
@@ -70,8 +70,9 @@ def explore(ctx):
         "disagreements": ndis,
         "faults_detected_with_expected_kind": detected,
         "property_failures": wrong_kind,
-        "rule": "valid random programs with one injected fault: 8 fault kinds x 5 calling contexts (direct, tail call "
-                "of a procedure, through apply, from a (scheme base) procedure, inside a derived form) x %d seeds, an "
+        "rule": "valid random programs with one injected fault: 8 fault kinds x 6 calling contexts (direct, tail call "
+                "of a procedure, through apply, from a (scheme base) procedure, inside a derived form, after / as a self tail call of "
+                "a procedure that has re-entered itself) x %d seeds, an "
                 "effect completed before the fault in the same form, followed by forms that read the state; per form: "
                 "value or error kind, tick trace, stdout, compared between model and implementation, and the kind "
                 "checked against the kind the fault calls for. non-trivial = distinct faulting form whose fault was "
